@@ -4,6 +4,7 @@ import (
 	"bytes"
 	"encoding/json"
 	"fmt"
+	"math/big"
 	"sort"
 	"strings"
 
@@ -387,9 +388,35 @@ func runC03(c *Ctx) {
 				} else {
 					d3 := new(c03doc)
 					if ct, okt := w.decimals(target); okt && json.Unmarshal(out3, d3) == nil && d3.Currency == target {
-						c.R.Count("identities_after_ConvertInto", 1)
-						if name, det, _ := c03identitiesOpt(d3, ct, true, true); name != "" {
-							c.R.Fail("identity-after-convert-into:"+name, fmt.Sprintf("%s, after ConvertInto(%s at %s): %s", origin, target, rate, det), map[string]any{"origin": origin, "input": json.RawMessage(n.Bytes()), "output": json.RawMessage(out3)})
+						// the library's arithmetic is exact only while operands and intermediates
+						// fit 2^52 units (C05); a conversion can leave that domain (× 151 into a
+						// three-decimal currency): such documents are counted, not judged
+						huge := false
+						if d3.Totals != nil {
+							lim := dec.New(1_000_000_000_000, 0)
+							figs := []string{d3.Totals.Sum, d3.Totals.Total, d3.Totals.Payable}
+							if d3.Totals.Taxes != nil {
+								for _, ct3 := range d3.Totals.Taxes.Categories {
+									for _, rt := range ct3.Rates {
+										figs = append(figs, rt.Base)
+									}
+								}
+							}
+							for _, f := range figs {
+								if v, ok := dec.Parse(f); ok {
+									u := dec.D{U: new(big.Int).Abs(v.U), E: 0}
+									if u.Cmp(lim) > 0 {
+										huge = true
+									}
+								}
+							}
+						}
+						if huge {
+							c.R.Count("conversions_beyond_the_exact_domain(not_judged)", 1)
+						} else if c.R.Count("identities_after_ConvertInto", 1); true {
+							if name, det, _ := c03identitiesOpt(d3, ct, true, true); name != "" {
+								c.R.Fail("identity-after-convert-into:"+name, fmt.Sprintf("%s, after ConvertInto(%s at %s): %s", origin, target, rate, det), map[string]any{"origin": origin, "input": json.RawMessage(n.Bytes()), "output": json.RawMessage(out3)})
+							}
 						}
 					}
 				}
